@@ -10,10 +10,17 @@ folded over the same history, and the final dump equals the dump of the specific
 namespace Swat4.Drv.C11
 open Swat4 Swat4.Drv Std
 
+/-- items that are no repository call and that neither the specification nor the model reacts to: `F<addr>` (the stored JSON
+of `<addr>` gets members this release does not know, as a record written by another release has: decoding ignores them)
+`R<ns>` (time passes in the storage service: no data key carries a time-to-live) and `L<addr>` (the stored JSON of `<addr>` is
+rewritten with the member names the released program writes: what a previous run left must read back as the same server) -/
+def inert (it : String) : Bool := (it.startsWith "F" || it.startsWith "R" || it.startsWith "L") && !(it.contains '|')
+
 def specStep (acc : AbsState Ã— Int Ã— List String) (it : String) : Option (AbsState Ã— Int Ã— List String) :=
   let (a, clock, rs) := acc
   if it.startsWith "t" && !(it.contains '|') then
     (it.drop 1).toInt?.map fun d => (a, clock + d, rs ++ ["-"])
+  else if inert it then some (a, clock, rs ++ ["-"])
   else
     match parseCall it with
     | some (.w .add svr res) => let (a', r) := a.add clock svr res
@@ -43,6 +50,7 @@ def modelStep (acc : SeqState Ã— List String) (it : String) : Option (SeqState Ã
   let (s, rs) := acc
   if it.startsWith "t" && !(it.contains '|') then
     (it.drop 1).toInt?.map fun d => ({ s with clock := s.clock + d }, rs ++ ["-"])
+  else if inert it then some (s, rs ++ ["-"])
   else
     (parseCall it).map fun c => let (s', r, _) := runCall s c .none; (s', rs ++ [r])
 
